@@ -242,21 +242,16 @@ let rknown_class (prog : rstmt list) : string =
   else begin
     let base = List.filter_map (function SB s -> Some s | SCall _ -> None) prog in
     let cs = posted base in
-    let hs, _ = analyse prog in
-    let only_decl = List.for_all (function HDecl _ -> true | _ -> false) hs in
-    let decl_store = List.filter_map (function HDecl d -> Some (zlist d) | _ -> None) hs in
-    let aux_bad c =
-      if only_decl then kf_aux_bounds c decl_store
-      else
-        (* handles defined by calls: test the placeholder bounds on every assignment of the handles *)
-        enum_handles hs (fun a -> not (win_cons (stored c) a)) <> [] in
+    (* an auxiliary variable of a fluent tree whose computed range exceeds MAX_SPARSE_SET_DOMAIN_SIZE is
+       represented by the empty domain (Model/Lower.v aux_dom): an empty domain of a variable that is
+       not a handle of the program *)
+    let aux_oversize s = List.exists (fun (i, d) -> d = [] && not (List.mem i (List.map int_of_nat m.ruser))) (List.mapi (fun i d -> (i, d)) s) in
     let lowered = rlower m in
     let low_has f = match lowered with RLOk (_, ps) -> List.exists f ps | RLPanic -> false in
     if m.rpanic || lowered = RLPanic then "BAD:empty_domain_panic "
-    else if (match lowered with RLOk (s, ps) -> rvalidate s ps = Some VInvalidDomain && not (List.exists (fun d -> d = []) s) | RLPanic -> false) then "BAD:oversize_domain "
+    else if (match lowered with RLOk (s, ps) -> rvalidate s ps = Some VInvalidDomain && (aux_oversize s || not (List.exists (fun d -> d = []) s)) | RLPanic -> false) then "BAD:oversize_domain "
     else if List.exists (fun c -> kf_or_not (fold_cons c)) cs then "BAD:or_not "
     else if List.exists kf_nested_ne cs then "BAD:nested_ne "
-    else if List.exists aux_bad cs then "BAD:aux_bounds "
     else if low_has (function PB (PLinEq (c, x, _)) | PB (PLinLe (c, x, _)) -> all_zero c x | _ -> false) then "BAD:lin_zero_coeffs "
     else if low_has (function PB (PMod (_, _, _)) -> (match lowered with RLOk (s, ps) -> rvalidate s ps = Some VInvalidConstraint | _ -> false) | _ -> false) then "BAD:mod_rejected "
     else ""
